@@ -147,11 +147,11 @@ type in struct {
 var interned = map[string]string{}
 
 func init() {
-	for _, pool := range [][]string{ifaces, names, attrKeys, scalars, snapIDs, pubIDs, ruleTypes, snapTypes, distros, stores,
+	for _, pool := range [][]string{ifaces, names, nameEntries, litEntries, attrKeys, scalars, snapIDs, pubIDs, ruleTypes, snapTypes, distros, stores,
 		brands, models, {"", "ubuntu-core", "substore", "k1.k1", "k2.k3", ".k1.", "k9", "$INTERFACE", "$OTHER",
 			"$PLUG_PUBLISHER_ID", "$SLOT_PUBLISHER_ID", "$UNKNOWN", "brand1/model1", "brand1/model2", "brand2/model1", "brand2/model2"}} {
 		for _, x := range pool {
-			interned[x] = "s_" + strings.NewReplacer("-", "_", "$", "D_", ".", "_dot_", "/", "_sl_").Replace(x)
+			interned[x] = "s_" + strings.NewReplacer("-", "_", "$", "D_", ".", "_dot_", "/", "_sl_", "|", "_bar_").Replace(x)
 		}
 	}
 }
